@@ -92,6 +92,10 @@ impl<'me> BlockOnTransferredOwner<'me> {
     pub(super) fn block(self, query_mutex_guard: SyncGuard<'me>) -> BlockResult<'me> {
         // Cycle in the same thread.
         if self.thread_id == self.other_id {
+            #[cfg(salsa_verif)]
+            self.dg.verif_trace("block_owner", |t, o| {
+                verif_block_args(t, o, self.database_key, self.other_id, "cycle")
+            });
             return BlockResult::Cycle;
         }
 
@@ -102,8 +106,17 @@ impl<'me> BlockOnTransferredOwner<'me> {
                 self.other_id,
                 thread_id = self.thread_id
             );
+            #[cfg(salsa_verif)]
+            self.dg.verif_trace("block_owner", |t, o| {
+                verif_block_args(t, o, self.database_key, self.other_id, "cycle")
+            });
             return BlockResult::Cycle;
         }
+
+        #[cfg(salsa_verif)]
+        self.dg.verif_trace("block_owner", |t, o| {
+            verif_block_args(t, o, self.database_key, self.other_id, "running")
+        });
 
         BlockResult::Running(Running(Box::new(BlockedOnInner {
             dg: self.dg,
@@ -167,6 +180,14 @@ impl Running<'_> {
             WaitResult::Cancelled => false,
             WaitResult::Completed => true,
         }
+    }
+}
+
+#[cfg(salsa_verif)]
+impl Running<'_> {
+    /// Verification hook: the thread this `Running` would block on.
+    pub(crate) fn verif_other_id(&self) -> ThreadId {
+        self.0.other_id
     }
 }
 
@@ -264,18 +285,28 @@ impl Runtime {
     pub(crate) fn set_cancellation_flag(&self) {
         crate::tracing::trace!("set_cancellation_flag");
         self.revision_cancelled.store(true, Ordering::Release);
+        #[cfg(salsa_verif)]
+        crate::verif_trace::emit_with("cancel", "set_flag", |_, _| {});
     }
 
     pub(crate) fn reset_cancellation_flag(&self) {
         self.revision_cancelled.store(false, Ordering::Release);
+        #[cfg(salsa_verif)]
+        crate::verif_trace::emit_with("cancel", "reset_flag", |_, _| {});
     }
 
     pub(crate) fn bump_cancellation_count(&mut self) -> bool {
         let count = self.cancellation_count.get_mut();
         let Some(next) = count.checked_add(1) else {
+            #[cfg(salsa_verif)]
+            crate::verif_trace::emit_with("cancel", "bump_cc", |_, o| {
+                o.push_str(&format!("{} 1", u8::MAX))
+            });
             return true;
         };
         *count = next;
+        #[cfg(salsa_verif)]
+        crate::verif_trace::emit_with("cancel", "bump_cc", |_, o| o.push_str(&format!("{next} 0")));
         false
     }
 
@@ -299,6 +330,10 @@ impl Runtime {
         self.revisions[0] = r_new;
         *self.cancellation_count.get_mut() = 0;
         crate::tracing::info!("new_revision: {r_old:?} -> {r_new:?}");
+        #[cfg(salsa_verif)]
+        crate::verif_trace::emit_with("cancel", "new_revision", |_, o| {
+            o.push_str(&r_new.as_usize().to_string())
+        });
         r_new
     }
 
@@ -322,6 +357,10 @@ impl Runtime {
         let thread_id = thread::current().id();
         // Cycle in the same thread.
         if thread_id == other_id {
+            #[cfg(salsa_verif)]
+            crate::verif_trace::emit_with("sync", "block_self", |_, o| {
+                o.push_str(&crate::verif_trace::K(database_key).to_string())
+            });
             return BlockResult::Cycle;
         }
 
@@ -331,8 +370,17 @@ impl Runtime {
             crate::tracing::debug!(
                 "block_on: cycle detected for {database_key:?} in thread {thread_id:?} on {other_id:?}"
             );
+            #[cfg(salsa_verif)]
+            dg.verif_trace("block", |t, o| {
+                verif_block_args(t, o, database_key, other_id, "cycle")
+            });
             return BlockResult::Cycle;
         }
+
+        #[cfg(salsa_verif)]
+        dg.verif_trace("block", |t, o| {
+            verif_block_args(t, o, database_key, other_id, "running")
+        });
 
         BlockResult::Running(Running(Box::new(BlockedOnInner {
             dg,
@@ -359,12 +407,25 @@ impl Runtime {
 
         let Some(owner_thread_id) = owner_thread else {
             // The query transferred its ownership but the owner has since then released the lock.
+            #[cfg(salsa_verif)]
+            dg.verif_trace("block_transferred", |_, o| {
+                o.push_str(&format!("{} released", crate::verif_trace::K(query)))
+            });
             return BlockTransferredResult::Released;
         };
 
         if owner_thread_id == current_id || dg.depends_on(owner_thread_id, current_id) {
+            #[cfg(salsa_verif)]
+            dg.verif_trace("block_transferred", |_, o| {
+                o.push_str(&format!("{} im_the_owner", crate::verif_trace::K(query)))
+            });
             BlockTransferredResult::ImTheOwner
         } else {
+            #[cfg(salsa_verif)]
+            dg.verif_trace("block_transferred", |t, o| {
+                let owner = t.t(owner_thread_id);
+                o.push_str(&format!("{} owned_by:t{owner}", crate::verif_trace::K(query)))
+            });
             // Lock is owned by another thread, wait for it to be released.
             BlockTransferredResult::OwnedBy(Box::new(BlockOnTransferredOwner {
                 dg,
@@ -444,6 +505,22 @@ impl Runtime {
         // The only field that is serialized is `revisions`.
         self.revisions = other.revisions;
     }
+}
+
+/// Verification hook: `<key> t<other> <answer>` arguments of the `block`/`block_owner` trace lines.
+#[cfg(salsa_verif)]
+fn verif_block_args(
+    t: &mut crate::verif_trace::Tids<'_>,
+    o: &mut String,
+    database_key: DatabaseKeyIndex,
+    other_id: ThreadId,
+    answer: &str,
+) {
+    let other = t.t(other_id);
+    o.push_str(&format!(
+        "{} t{other} {answer}",
+        crate::verif_trace::K(database_key)
+    ));
 }
 
 #[cold]
